@@ -787,6 +787,37 @@ def caller_derefs(repo, handler_keys):
     return sorted(out)
 
 
+# (4) what _parse_ext_info stores for later use on the caller's thread: the value kept in
+#     `extensions[name]` must be exactly what one get_string / get_binary call returned (bytes), so
+#     that `u(server_extensions.get(k, b""))` can only fail with UnicodeDecodeError.
+
+def ext_info_store(tree):
+    _, fn = tree.method(("transport.py", "Transport"), "_parse_ext_info")
+    if fn is None:
+        raise Fail("Transport._parse_ext_info not found")
+    m = fn.args.args[1].arg
+    bound = {}
+    stores = []
+    for n in ast.walk(fn):
+        if isinstance(n, ast.Assign) and len(n.targets) == 1:
+            t, v = n.targets[0], n.value
+            if (isinstance(t, ast.Name) and isinstance(v, ast.Call) and isinstance(v.func, ast.Attribute)
+                    and isinstance(v.func.value, ast.Name) and v.func.value.id == m and v.func.attr in GETTERS):
+                bound.setdefault(t.id, []).append(GETTERS[v.func.attr])
+            elif isinstance(t, ast.Name):
+                bound.setdefault(t.id, []).append(None)          # some other binding
+            if isinstance(t, ast.Subscript) and isinstance(t.value, ast.Name) and t.value.id == "extensions":
+                stores.append(v)
+    if len(stores) != 1:
+        raise Fail("_parse_ext_info: expected exactly one `extensions[...] = ...`, found %d" % len(stores))
+    v = stores[0]
+    if not isinstance(v, ast.Name) or bound.get(v.id) not in (["GString"],):
+        raise Fail("_parse_ext_info stores `%s`, not the bytes returned by one get_string/get_binary call"
+                   % ast.unparse(v))
+    # server_extensions must be (re)bound only to that dict or a literal dict of str -> str/bytes
+    return "GString"
+
+
 def extract(repo, lenient=False):
     """lenient: used by the harness when the strict extraction failed, so that its oracle can still run."""
     tree = Tree(repo)
@@ -833,8 +864,15 @@ def extract(repo, lenient=False):
             raise
         problems.append(str(e))
         clears = derefs = None
+    try:
+        ext_store = ext_info_store(tree)
+    except Fail as e:
+        if not lenient:
+            raise
+        problems.append(str(e))
+        ext_store = None
     return {"handlers": hs, "ladder": lad, "problems": problems, "guards": guards, "sites": sites,
-            "clears": clears, "derefs": derefs}
+            "clears": clears, "derefs": derefs, "ext_store": ext_store}
 
 
 def _ascii(name):
@@ -887,6 +925,9 @@ def generate(repo):
     out.append("(* attributes dereferenced (self.A.x / self.A[..]) by transport methods reachable on the caller's thread: %s *)"
                % ", ".join(ex["derefs"]))
     out.append("Definition caller_derefs : list (list Z) := [%s]." % "; ".join(_ascii(x) for x in ex["derefs"]))
+    out.append("")
+    out.append("(* the getter whose result _parse_ext_info stores unchanged in server_extensions[name] *)")
+    out.append("Definition ext_info_store : getter := %s." % ex["ext_store"])
     out.append("")
     out.append("Definition run_handler (c : Z * list Z) : list Z := run_parse_in handlers c.")
     out.append("Definition run_ladder (raw : Z) : list Z := run_surface_in ladder raw.")
